@@ -68,6 +68,11 @@ def run(chk: Check, proj: Project) -> None:
     generic.forwarding(chk, "S13", proj, w.cg, ["component", "dependencies", "components.dynamic"], floor=4)
     chk.borrow("S12", "placeholder replacements are the per-mode variables (nothing is inlined where a fragment's placeholder was); script cache keys keep their fields unchanged; every selected base contributes its Media (shared with C08-S4, C19-S8, C16-S4)",
                lambda sub: (C08.s4(sub, proj, proj.mod("dependencies")), C19.s8_key_fields(sub, proj), __import__("djc_sa.rules.C16", fromlist=["x"]).s4b_merge_loop(sub, proj.mod("component_media"))))
+    C08.s12_gives_up_only_without_both(chk, proj, proj.mod("dependencies"), rule="S15")
+    from . import C15 as _C15
+
+    chk.borrow("S14", "every component class has its OWN hash (a subclass that inherits its parent's hash overwrites the parent's entry in comp_hash_mapping: a page that renders only the parent gets the subclass's files) (shared with C15-S5)",
+               lambda sub: _C15.s5(sub, proj, w, proj.mod("component_registry")), only=lambda o: "own-hash" in o.construct)
     chk.borrow("S11", "scripts cached during a render are still there when the page's dependencies are collected: the library's own cache backend has an effective 'no limit' configuration (shared with C19-S7)",
                lambda sub: C19.s7_own_backend(sub, proj))
 
@@ -329,6 +334,13 @@ def s4_once(chk: Check, proj: Project, w) -> None:
                 before = loop.body[: loop.body.index(gd)]
                 sched = [c for st in before for c in calls(st, "append")]
                 chk.ob("S4", key, m.loc(gd), not sched, f"`if {keyexpr.id} in {cont}: continue` precedes all scheduling; key recorded in the same iteration" if not sched else f"`{short(sched[0])}` is executed before the dedupe guard")
+                # the key is ONE field of the record (the class hash): a composite key that also contains per-instance fields
+                # makes every distinct instance "new", so the per-class scheduling below the guard runs once per instance
+                kd = [v for _s, v in assignments(f, keyexpr.id) if v is not None]
+                composite = [v for v in kd if isinstance(v, (ast.Tuple, ast.List, ast.JoinedStr, ast.BinOp))]
+                chk.ob("S4", key + ":key-is-one-field", m.loc(rec_st), not composite,
+                       f"`{keyexpr.id}` is a single field of the record" if not composite else
+                       f"the dedupe key `{keyexpr.id} = {short(composite[0])}` combines several fields: instances of one class that differ in their JS / CSS variables are all 'new', so the class's <script> / <style> is scheduled once per distinct instance instead of once per class")
     chk.floor("S4", n, 2)
 
 
